@@ -141,3 +141,36 @@ func verifH_C44_commitspec() {
 	verifCover(verifAnd(err == nil, idx < len(trimmed)), "accepted-with-suffix")
 	verifReach("end")
 }
+
+// H-C44-hashspec: a commit hash (32 characters of [0-9a-v]) followed by an ancestor suffix of <= 3 bytes over
+// {^ ~ 1 2}: NewCommitSpec classifies it as a hash spec whose base is the hash alone - the same base as the hash parsed without the suffix - and whose instructions are those of the suffix.
+func verifH_C44_hashspec() {
+	verifPanicIsViolation()
+	verifUnwind(64)
+	h := "0123456789abcdefghijklmnopqrstuv"
+	suffix := verifSpecString("suffix", "^~12", 3)
+	if len(suffix) > 0 {
+		verifAssume(verifOr(suffix[0] == '^', suffix[0] == '~'))
+	}
+	cs, err := NewCommitSpec(h + suffix)
+	wantInst, wantOK := verifRefParse(suffix)
+	verifAssert((err == nil) == wantOK, "accepted-iff-suffix-in-language")
+	if err != nil {
+		return
+	}
+	baseOnly, berr := NewCommitSpec(h)
+	verifAssert(berr == nil, "hash-alone-is-accepted")
+	verifAssert(cs.csType == hashCommitSpec, "classified-as-hash")
+	if berr == nil {
+		verifAssert(cs.baseSpec == baseOnly.baseSpec, "same-base-as-hash-alone")
+	}
+	verifAssert(len(cs.baseSpec) == 32, "base-is-the-hash")
+	verifAssert(len(cs.aSpec.Instructions) == len(wantInst), "instruction-count")
+	if len(cs.aSpec.Instructions) == len(wantInst) {
+		for i := range wantInst {
+			verifAssert(cs.aSpec.Instructions[i] == wantInst[i], "instruction")
+		}
+	}
+	verifCover(len(suffix) > 0, "with-suffix")
+	verifReach("end")
+}
